@@ -13,6 +13,11 @@ CLAIMED = {
    note="Trusted: refpred.rs / spec.rs, the 'message present in the stream' oracle (resynchronisation after an error is the server's choice), overflow-checks + debug-assertions in the harness build. A set REPLY bit on a request and out-of-bounds reads that do not alter arguments are not judged here (the latter: ASan fuzz target). Descriptors passed by the generator back the ranges the messages declare (a mapping past the end of a file faults in any mmap-based back end).",
    technique="grammar-aware mutational property testing (proptest) with independent validity oracle; crash isolation by supervising process",
    ref="DESIGN.md section 3, C05"),
+ "C10": dict(level="exploration",
+   text="Controlled concurrency runs with harness-owned hold points between 'request written' and 'reply read' in the Frontend, the Backend proxy and the GpuBackend: every op mix of two callers (and sampled / all mixes of three) over {two reply-bearing codes, acknowledged, fire-and-forget} x every release order; the first caller is parked with its request outstanding, the others are started and must settle (blocked on the endpoint lock), the raw peer sees the wire and answers every request with that request's identity. Checked: no request reaches the wire while another caller sits between write and read, every caller gets its own answer and no error, all complete. Plus uncontrolled stress (8 threads x 200 mixed calls per endpoint; 16 x 20000 thorough) with an identity-echoing responder, which covers windows the hold point does not expose.",
+   note="Trusted: hold-point controller and thread-state sampling (a caller asleep without being parked is 'blocked on the lock'). Atomicity is explored at hold-point granularity (one window per call); interleavings inside sendmsg/recvmsg are the kernel's. The stress part is probabilistic.",
+   technique="controlled-schedule enumeration with hold points + multi-thread stress against an identity-echoing raw peer",
+   ref="DESIGN.md section 3, C10"),
  "C11": dict(level="exploration",
    text="Model-based testing of a real VhostUserDaemon: every word up to depth 4 (quick) / 5 (thorough) over the 11-symbol one-ring alphabet (containing a kick) is executed on a fresh daemon, alternating Mutex- and RwLock-backed rings, plus random 2-ring histories up to 20 steps; after every step a double barrier on the worker makes 'no dispatch' observable without sleeping and per-ring handler invocations are compared with a reference ring model (started/enabled/pending). Histories are unbounded, so bounded-exhaustive + random exploration is what is claimed.",
    note="Trusted: the ring model in props/c11.rs, the double-barrier argument (epoll batch semantics), the raw spec-encoding client. Kicks are raised on the current descriptor and on stale descriptors the front end still holds; fatal-by-protocol steps are skipped; an extra handler call for an active ring without a kick is only counted.",
